@@ -56,6 +56,7 @@ enum Recipe {
     Fixed(i32),
     Posix(String),
     Tzif(String),   // bundled name, through TimeZone::tzif(bytes)
+    TzifAs(String, String), // (identifier, bundled name whose bytes are used): same identifier over different data must not compare equal
     Db(String),     // through a database lookup (the cache's handle is released by reset)
     Static(String), // tz::get! (only in the "static" build)
 }
@@ -72,7 +73,8 @@ fn gen_recipe(r: &mut Rng) -> Recipe {
             _ => r.range(-93599, 93599) as i32,
         }),
         4 | 5 => Recipe::Posix(r.pick(&POSIX).to_string()),
-        6 | 7 | 8 => Recipe::Tzif(r.pick(&NAMES).to_string()),
+        6 | 7 => Recipe::Tzif(r.pick(&NAMES).to_string()),
+        8 => Recipe::TzifAs(r.pick(&["Custom/Zone", "America/New_York"]).to_string(), r.pick(&NAMES[..3]).to_string()),
         9 | 10 => Recipe::Db(r.pick(&NAMES).to_string()),
         _ => Recipe::Static(r.pick(&NAMES).to_string()),
     }
@@ -87,6 +89,10 @@ fn make(recipe: &Recipe, db: &TimeZoneDatabase) -> Option<TimeZone> {
         Recipe::Tzif(n) => {
             let (name, bytes) = jiff_tzdb::get(n)?;
             TimeZone::tzif(name, bytes).ok()?
+        }
+        Recipe::TzifAs(id, n) => {
+            let (_, bytes) = jiff_tzdb::get(n)?;
+            TimeZone::tzif(id, bytes).ok()?
         }
         Recipe::Db(n) => {
             let tz = db.get(n).ok()?;
@@ -245,7 +251,7 @@ fn run_program(cx: &mut Ctx, seed: u64, max_steps: u64, threads: bool) -> bool {
                     }
                 };
                 let answers = ask(&tz);
-                let heap = matches!(recipe, Recipe::Posix(_) | Recipe::Tzif(_) | Recipe::Db(_));
+                let heap = matches!(recipe, Recipe::Posix(_) | Recipe::Tzif(_) | Recipe::TzifAs(..) | Recipe::Db(_));
                 // fixed offsets reproduce their offset exactly
                 if let Recipe::Fixed(o) = recipe {
                     cx.eval(1);
@@ -315,8 +321,14 @@ fn run_program(cx: &mut Ctx, seed: u64, max_steps: u64, threads: bool) -> bool {
                     break;
                 }
                 // (a Db zone and a Tzif zone of the same name are the same bytes under the same name: equal too)
-                let same_bytes = match (&m.zones[*za].recipe, &m.zones[*zb].recipe) {
-                    (Recipe::Tzif(x), Recipe::Db(y)) | (Recipe::Db(x), Recipe::Tzif(y)) => x == y,
+                // value identity of TZif-backed zones: (identifier, data)
+                let tzif_id = |r: &Recipe| match r {
+                    Recipe::Tzif(n) | Recipe::Db(n) => Some((n.clone(), n.clone())),
+                    Recipe::TzifAs(id, n) => Some((id.clone(), n.clone())),
+                    _ => None,
+                };
+                let same_bytes = match (tzif_id(&m.zones[*za].recipe), tzif_id(&m.zones[*zb].recipe)) {
+                    (Some(x), Some(y)) => x == y,
                     _ => false,
                 };
                 if ab != (same_value || same_bytes) {
